@@ -226,3 +226,71 @@ func TestLiftTruncCommutes(t *testing.T) {
 		}
 	}
 }
+
+// srangeLin: bounds stated for one linear form of a base bound every other linear form of it.
+func TestLinearRangesCoverEveryValue(t *testing.T) {
+	r := rand.New(rand.NewSource(11))
+	X := term.Var("LX", term.BV(64))
+	k64 := func(v int64) *term.Term { return term.Const(64, uint64(v)) }
+	mkLin := func(sign int, off int64, shape int) *term.Term {
+		if sign > 0 {
+			switch shape % 3 {
+			case 0:
+				return term.Add(X, k64(off))
+			case 1:
+				return term.Sub(X, k64(-off))
+			default:
+				return term.Add(term.Add(X, k64(off-7)), k64(7))
+			}
+		}
+		switch shape % 3 {
+		case 0:
+			return term.Sub(k64(off), X)
+		case 1:
+			return term.Add(term.Neg(X), k64(off))
+		default:
+			return term.Sub(k64(off+3), term.Add(X, k64(3)))
+		}
+	}
+	for iter := 0; iter < 4000; iter++ {
+		s1, s2 := 1-2*r.Intn(2), 1-2*r.Intn(2)
+		o1, o2 := int64(r.Intn(2000000)-1000000), int64(r.Intn(2000000)-1000000)
+		u := mkLin(s1, o1, r.Intn(3))
+		lo := int64(r.Intn(400000) - 200000)
+		hi := lo + int64(r.Intn(300000))
+		var conj []*term.Term
+		switch r.Intn(3) {
+		case 0:
+			conj = []*term.Term{term.Sle(k64(lo), u), term.Sle(u, k64(hi))}
+		case 1:
+			conj = []*term.Term{term.Sle(u, k64(hi))}
+			lo = hi - 300000
+		default:
+			conj = []*term.Term{term.Sle(k64(lo), u)}
+			hi = lo + 300000
+		}
+		g := term.And(conj...)
+		f := factsOf(g)
+		e := mkLin(s2, o2, r.Intn(3))
+		mul := int64(1)
+		if r.Intn(2) == 0 {
+			mul = int64(1 + r.Intn(100000))
+			e = term.Mul(e, k64(mul))
+		}
+		sr, ok := f.srangeLin(e)
+		if !ok {
+			continue
+		}
+		for n := 0; n < 50; n++ {
+			uv := lo + int64(r.Int63n(hi-lo+1)) // value of the bounded form
+			xv := int64(s1) * (uv - o1)         // s1*x + o1 = uv
+			m := term.Model{"LX": uint64(xv)}
+			if !term.EvalBool(g, m) {
+				t.Fatalf("sample does not satisfy the guard")
+			}
+			if v := int64(term.Eval(e, m)); v < sr.lo || v > sr.hi {
+				t.Fatalf("linear range [%d,%d] misses %d for %s under %s (x=%d)", sr.lo, sr.hi, v, deep(e), deep(g), xv)
+			}
+		}
+	}
+}
